@@ -118,6 +118,10 @@ def run(ctx) -> int:
             table = "table" in md.get_active_rules()["block"]
             ctrl = k % 2 == 0
             t = gen_t(r, ctrl)
+            if k % 50 in (7, 8):
+                # long texts: no length limit applies to link text, descriptions, titles or cells
+                t = r.choice(["*" * 600, "x" * 1100, "ab*" * 400, "".join(PUNCT[i % 32] for i in range(700)).replace("|", "!").strip("`"),
+                              "word " * 260 + "end"])
             if not t:
                 continue
             if ctrl:
